@@ -181,6 +181,7 @@ func (s *Sim) Quiesce() {
 	reconciles := 0
 	fixed := false
 	round := 0
+	idleRounds := 0
 	for round = 0; round < R; round++ {
 		changed := false
 		for _, k := range cacheKinds {
@@ -191,7 +192,10 @@ func (s *Sim) Quiesce() {
 		if s.kubeletSettle(round, stuck) {
 			changed = true
 		}
-		if s.janitor(stuck) {
+		// foreign pods are removed only after the system has had a few rounds with
+		// them in place (or has gone idle): a controller that gave up retrying is
+		// then not rescued by the unrelated activity of the first rounds
+		if (round >= 3 || idleRounds > 0) && s.janitor(stuck) {
 			changed = true
 		}
 		for s.stepGC() {
@@ -213,8 +217,15 @@ func (s *Sim) Quiesce() {
 			break
 		}
 		if !changed && s.pendingTotal() == 0 && len(s.inc.queue.delayed) == 0 && s.inc.queue.Len() == 0 {
-			fixed = true
-			break
+			idleRounds++
+			// the janitor needs two idle rounds to collect a terminal pod (pod GC) and
+			// then must have found nothing more to do
+			if idleRounds >= 4 {
+				fixed = true
+				break
+			}
+		} else if !changed {
+			idleRounds = 0
 		}
 	}
 	s.tracef("quiesce: rounds=%d reconciles=%d settled=%v", round, reconciles, fixed)
